@@ -206,6 +206,9 @@ var tokens = []string{
 	"a", "1", " ", "\x00", "\xff\xfe", "\n",
 }
 
+// connectives are the separators the regular expressions split on.
+var connectives = []string{" for ", " from ", " port ", " ssh2", ": ", "ID ", " (serial ", ")", " CA ", ":", " not allowed because ", "\"", "invalid user "}
+
 var placeholders = map[string]bool{"unknown": true, "root": true, "unknown reason": true}
 
 // checkC11 is the oracle for arbitrary lines.
@@ -322,6 +325,12 @@ func garbage(k int, longLen int, s sets, emit func(item)) {
 			dup := append(append(append([]string{}, parts[:i+1]...), parts[i]), parts[i+1:]...)
 			emit(item{x: Exp{Line: strings.Join(dup, " "), Form: "token-duplicated"}, pid: "77"})
 		}
+		for i := 1; i < len(parts); i++ { // every connective / separator inserted at every token boundary
+			for _, c := range connectives {
+				ins := strings.Join(parts[:i], " ") + " " + strings.TrimSpace(c) + " " + strings.Join(parts[i:], " ")
+				emit(item{x: Exp{Line: ins, Form: "connective-inserted"}, pid: "77"})
+			}
+		}
 		for _, kw := range keywords { // keyword swap
 			for _, kw2 := range keywords {
 				if strings.HasPrefix(l, kw) && kw != kw2 {
@@ -390,7 +399,7 @@ func runGarbage(run *mc.Run, prop string) int {
 		}
 	}, run.Expired)
 	cov := mc.Coverage{Level: "exploration", Evaluations: int(n), Distinct: int(keyworded), Exhaustive: complete, Samples: sm.samples,
-		Rule:  fmt.Sprintf("(i) every string of <=%d tokens over a %d-token alphabet (all dispatch keywords, every connective/separator of the regular expressions, NUL, invalid UTF-8, newline, a %d-byte run); (ii) for every valid line of the reduced C06 product: every byte truncation, every single-token deletion and duplication, every keyword swap, junk prefix/suffix, doubling; (iii) 8 odd pid tokens on every valid line; each through the real ProcessSshdLogEntry under recover. distinct_nontrivial = lines that begin with a dispatch keyword (reach a regular expression)", k, len(tokens)+1, long),
+		Rule:  fmt.Sprintf("(i) every string of <=%d tokens over a %d-token alphabet (all dispatch keywords, every connective/separator of the regular expressions, NUL, invalid UTF-8, newline, a %d-byte run); (ii) for every valid line of the reduced C06 product: every byte truncation, every single-token deletion and duplication, every connective inserted at every token boundary, every keyword swap, junk prefix/suffix, doubling; (iii) 8 odd pid tokens on every valid line; each through the real ProcessSshdLogEntry under recover. distinct_nontrivial = lines that begin with a dispatch keyword (reach a regular expression)", k, len(tokens)+1, long),
 		Extra: map[string]any{"lines_per_class": sm.forms, "lines_with_keyword": keyworded, "lines_that_emitted_an_event": emitted, "token_bound": k}}
 	return run.Finish(cov)
 }
